@@ -9,6 +9,7 @@ CONSTANTS
   IdsIdentifyContent = TRUE
   IncOf <- MCIncOf
   KeepHigherIncarnation = FALSE
+  ReuseUnattested = FALSE
   StateEarly = FALSE
   InitScenarios = {"fresh", "haskey"}
   InitDocs <- DocsSmall
@@ -17,7 +18,7 @@ CONSTANTS
   MaxCrash = 1
   MaxDamage = 1
   MaxNotify = 1
-  FsFaults = TRUE
+  FsFaults = FALSE
   AcquireMayRepeat = TRUE
 INVARIANTS TypeOK LatchedIsRecoverable NoCorruptFinalName AttestOnlyAfterStoreAndReadBack RestartUsesLocal
            Converged NoKeyWhenDisabled
